@@ -209,6 +209,9 @@ def run(case):
             vals = list(dict.fromkeys(vals))
             if o["absent"] or not vals:
                 vals.append(99.0)
+            if len(o["picks"]) >= 8:
+                # long request lists: most requested values do not occur in the list at all (removing a batch of ids from a sub-list)
+                vals = vals[: max(1, len(vals) // 2)] + [7000.0 + p_ for p_ in o["picks"]]
             arg = vals[0] if (o["scalar"] and len(vals) == 1) else (np.array(vals, dtype=float) if o.get("as_array") and k == "remove" else list(vals))
             if isinstance(arg, np.ndarray):
                 out.label("remove:values_as_ndarray", "remove:>=8_values" if len(vals) >= 8 else "remove:few_values")
